@@ -53,9 +53,12 @@ PROPERTIES["C05"] = {
     "level_note": "Bounds: packages p,q; <=3 objects; main object depth 1 over {scalar, ref, constant_ref, array, map, struct<=2, union of 2}; "
                   "names over {Foo,foo,Bar,...} (case variants on purpose). CUE front end and references into unloaded packages are outside the claim.",
     "bounds": {"schemas": "2 packages, <=3 objects, main object T(1), names over a case-sensitive alphabet of 3-4, pass parameters symbolic over the same alphabets"},
-    "runs": [Run("compiler", ["./internal/ast/compiler"], COMPILER_HARNESS,
+    "runs": lambda ctx: [Run("compiler", ["./internal/ast/compiler"], COMPILER_HARNESS,
                  ["VerifC05Rename", "VerifC05Prefix", "VerifC05Duplicate", "VerifC05Unspec", "VerifC05ReplaceReference", "VerifC05AllowedObjects"],
-                 "internal/ast/compiler", needs_leaf=True)],
+                 "internal/ast/compiler", needs_leaf=True)]
+             + [Run("chains", ["./internal/zzverif/hchains"], CHAINS_HARNESS,
+                    ["VerifC05ChainGo", "VerifC05ChainJava", "VerifC05ChainPHP", "VerifC05ChainPython", "VerifC05ChainTypeScript"],
+                    "internal/zzverif/hchains", test_pkg_name="hchains", needs_leaf=True)],
 }
 
 
